@@ -281,3 +281,34 @@ Definition iso_io_control (e : option iso_io_entry) (did : Z) (cp : option Z) (v
         end
       end
   end.
+
+(* 0x2C DynamicallyDefineDataIdentifier, defineByMemoryAddress (SF 2): U16 DID, one ALFID byte, then (address, size)* in the widths the
+   ALFID announces.  Each source is given as MemoryLocation(address, size, address_format, memorysize_format); a format that is not
+   given is the client's configured server format, else the fewest whole bytes (at least one) that hold the value.  All sources must
+   end up with the same widths; a width must be 8..64 bits in steps of 8 and the value must fit it. *)
+Definition iso_bit_length (v : Z) : Z := if v =? 0 then 0 else Z.log2 (Z.abs v) + 1.
+Definition iso_smallest (v : Z) : Z := Z.max 1 ((iso_bit_length v + 7) / 8).
+Definition iso_fmt_ok (f : Z) : bool := (8 <=? f) && (f <=? 64) && (f mod 8 =? 0).
+Definition iso_mem_entry (ca cs : option Z) (e : Z * Z * option Z * option Z) : option (Z * Z * bytes) :=
+  let '(addr, size, af, sf) := e in
+  let fa := match af with Some f => f | None => match ca with Some f => f | None => 8 * iso_smallest addr end end in
+  let fs := match sf with Some f => f | None => match cs with Some f => f | None => 8 * iso_smallest size end end in
+  if iso_fmt_ok fa && iso_fmt_ok fs && (0 <=? addr) && (addr <? 256 ^ (fa / 8)) && (0 <=? size) && (size <? 256 ^ (fs / 8))
+  then Some (fa / 8, fs / 8, be_enc (Z.to_nat (fa / 8)) addr ++ be_enc (Z.to_nat (fs / 8)) size) else None.
+Definition iso_mem_sel (ca cs : option Z) (na ns : Z) (e : Z * Z * option Z * option Z) : option bytes :=
+  match iso_mem_entry ca cs e with Some (na', ns', b) => if (na' =? na) && (ns' =? ns) then Some b else None | None => None end.
+Definition iso_define_by_memory (ca cs : option Z) (did : Z) (entries : list (Z * Z * option Z * option Z)) : option iso_req :=
+  match entries with
+  | [] => None
+  | e0 :: _ =>
+    if in_u did 65535 then
+      match iso_mem_entry ca cs e0 with
+      | None => None
+      | Some (na, ns, _) =>
+        match iso_cat (map (iso_mem_sel ca cs na ns) entries) with
+        | Some d => ireq "DynamicallyDefineDataIdentifier" (Some 2) (u16 did ++ [16 * ns + na] ++ d)
+        | None => None
+        end
+      end
+    else None
+  end.
